@@ -662,6 +662,12 @@ impl PersistenceState {
 
         let old_path = wal_guard.path().to_path_buf();
 
+        // The outgoing segment is never written (or periodically synced) again once the writer
+        // is swapped: make its tail durable first, or the periodic policy never syncs it.
+        if !matches!(self.fsync_policy, FsyncPolicy::Never) {
+            wal_guard.sync()?;
+        }
+
         let new_wal_path = self
             .data_dir
             .join(format!("wal_{}.wal", HnswBackend::file_id()));
@@ -1367,6 +1373,13 @@ impl HnswBackend {
                 })?,
                 RecoveryMode::BestEffort => reader.read_all()?,
             };
+            // A replayed segment is never appended to again. A tail that only reached the page
+            // cache before the restart would otherwise never be synced by the periodic policy.
+            if !matches!(fsync_policy, FsyncPolicy::Never) {
+                std::fs::File::open(&wal_path)
+                    .and_then(|f| f.sync_all())
+                    .with_context(|| format!("failed to sync replayed WAL segment {}", wal_name))?;
+            }
 
             for entry in entries {
                 if entry.seq_no > max_wal_seq {
